@@ -596,10 +596,22 @@ impl Prop for ServerProp {
         // unknown members, padding) is a per-run draw; 0 = serde_json's compact output.
         {
             let mut w = world.borrow_mut();
-            let mask = match w.tape.draw(3) {
+            let mut mask = match w.tape.draw(3) {
                 0 | 1 => 0,
-                _ => 1 + w.tape.draw(63) as u32,
+                _ => 1 + w.tape.draw(127) as u32,
             };
+            // (a service that first collects the call as a `serde_json::Value` looks inside every
+            // member, unknown ones included: for it such a frame is undecodable)
+            if w.svc_variant == 1 {
+                mask &= !64;
+            }
+            // In worlds with the uniform cooperative-yield transport every call must cost exactly one
+            // yielding read (see `rule`): a call that does not fit the reader's initial 256-byte
+            // buffer costs two, loses its turn in between, and the monitor would flag what the
+            // design of that world deliberately leaves out. Spellings that bloat a call are off there.
+            if sc.yield_first {
+                mask &= 1 | 4 | 16 | 32;
+            }
             crate::server_world::set_call_spelling(mask);
             if mask != 0 {
                 w.stat("worlds_with_calls_spelled_unusually");
